@@ -19,6 +19,7 @@ ASSUMPTIONS = [
     'lone surrogates are not text and are excluded',
     'the Cython twin falcon/cyutil/uri.pyx cannot be built offline and is not covered',
     'reference decoder/encoder in this file (byte loop), cross-checked with urllib.parse',
+    'each worker first exercises other subsystems sharing the URI helpers with hostile input (results must not depend on process history)',
 ]
 
 UNRESERVED = 'ABCDEFGHIJKLMNOPQRSTUVWXYZabcdefghijklmnopqrstuvwxyz0123456789-._~'
@@ -57,6 +58,43 @@ def fully_escaped(s, allowed):
     """Only allowed characters and well-formed escapes."""
     rest = _ESC.sub('', s)
     return all(ch in allowed for ch in rest)
+
+
+_WARMED = [False]
+
+
+def warm_process():
+    """The functions under test are pure: what they return must not depend on what the process did before.
+    Once per worker, other subsystems that share the URI helpers (and their tables / caches) are exercised
+    with hostile input first: RFC 5987 filename* values with malformed escapes through the multipart parser,
+    query-string parsing, request path decoding, the 'check escaped' encoders through Response helpers."""
+    if _WARMED[0]:
+        return
+    _WARMED[0] = True
+    import io
+    import falcon
+    from falcon.media.multipart import MultipartFormHandler
+    from vf.drivers import wsgi as W
+    odd = ['%', '%%', '%4', '%g', '%zz', '%+2', '%2+', '%-1', '%G1', '%1g', '% 2', '%a', '%F', '%f%', '%25%', '%e2%82', '%c3']
+    odd += ['%' + a + b for a in '25aFfg+-/ ~' for b in '25aFfg+-/ ~']
+    for i in range(0, len(odd), 20):
+        body = b''
+        for j, name in enumerate(odd[i:i + 20]):
+            body += (b'--b\r\nContent-Disposition: form-data; name="f%d"; filename*=UTF-8\'\'' % j) + name.encode() + b'x.txt\r\n\r\nv\r\n'
+        body += b'--b--\r\n'
+        try:
+            for part in MultipartFormHandler().deserialize(io.BytesIO(body), 'multipart/form-data; boundary=b', len(body)):
+                part.filename
+                part.secure_filename
+        except falcon.HTTPError:
+            pass
+    for q in odd:
+        falcon.uri.parse_query_string('a=' + q + '&' + q + '=b,' + q, keep_blank=True, csv=True)
+        req = falcon.Request(W.build_environ('GET', '/p' + q.replace(' ', '') + '/x', query='k=' + q.replace(' ', '+')))
+        req.path, req.params, req.uri
+        resp = falcon.Response()
+        resp.location = '/l' + q
+        resp.append_link('/t' + q, 'next', title_star=('en', 't' + q))
 
 
 def check_string(s):
@@ -132,6 +170,9 @@ class EnumShort(Suite):
     decode(encode(s)) == s, check_escaped passthrough and idempotence."""
 
     name = 'enum_short'
+
+    def setup(self):
+        warm_process()
     exhaustive = True
     budget = {'quick': 1, 'thorough': 1}
 
@@ -162,6 +203,9 @@ class RandomLong(Suite):
     short (<8 tokens) and long paths are both taken."""
 
     name = 'random_long'
+
+    def setup(self):
+        warm_process()
     budget = {'quick': 20000, 'thorough': 600000}
 
     def strategy(self, tier):
@@ -259,6 +303,9 @@ class FuzzStrings(Suite):
     paths and the check-escaped heuristic give coverage feedback.  Seeds: a few escape-heavy strings."""
 
     name = 'fuzz_strings'
+
+    def setup(self):
+        warm_process()
     budget = {'quick': 0, 'thorough': 0}
     fuzz_runs = {'quick': 40000, 'thorough': 3000000}
     fuzz_shards = {'quick': 4, 'thorough': 12}
